@@ -58,7 +58,7 @@ StatsAll == {"true", "false", "auto"}
 StatsQuick == {"true", "auto"}
 V12 == {1, 2}
 OptDefault == {"default"}
-OptsAll == {"default", "int96", "explicit", "fixed"}
+OptsAll == {"default", "int96", "explicit", "fixed", "hive"}
 CodecNone == {"none"}
 CodecsAll == {"none", "SNAPPY", "GZIP", "ZSTD", "LZ4", "BROTLI"}
 CodecsSome == {"none", "SNAPPY", "GZIP"}
